@@ -131,6 +131,37 @@ def t1(s):
     return None
 
 
+def fperiod_wiring(ctx, p, RULE="C01-R1"):
+    # one frame period for everybody: the generator sizes its buffer with the frame period it is
+    # given and the vocoder writes that many samples per frame with the one *it* is given - both
+    # (and the sampling rate of the vocoder) must be the condition's current values, not the
+    # voice's own metadata (which is only their default)
+    gen = cm.body_or_fail(ctx, p, RULE, "engine::Engine::generator")
+    if gen is not None:
+        ebg = ExprBuilder(gen)
+        nfp = 0
+        for bb, t in gen.calls():
+            c = t["callee"]
+            if c["k"] != "fndef":
+                continue
+            tgt = p.bodies.get(c.get("resolved") or c["def"])
+            if tgt is None:
+                continue
+            for i, a in enumerate(t["args"]):
+                pn = tgt.local_name(i + 1)
+                want = {"fperiod": "fperiod", "sampling_frequency": "sampling_frequency", "rate": "sampling_frequency"}.get(pn)
+                if want is None:
+                    continue
+                nfp += 1
+                got = show(ebg.at(bb).op(a))
+                if got == "self.condition." + want:
+                    ctx.ok(RULE, "Engine::generator passes condition.%s to %s" % (want, cm.short(tgt.path)), cm.loc_of(t["span"]))
+                else:
+                    ctx.fail(RULE, gen.path, "%s of %s" % (pn, cm.short(tgt.path)),
+                             "%s receives `%s` as its %s instead of the condition's current value: an override of the frame period / sampling rate would reach only part of the pipeline (buffer sized with one period, frames written with another)" % (cm.short(tgt.path), got[:120], pn), cm.loc_of(t["span"]))
+        ctx.anchor(RULE, "fperiod / sampling_frequency arguments in Engine::generator", nfp, 3, gen.loc())
+
+
 def run(ctx):
     ctx.rule("C01-R1", "length law: generate_all allocates (len(lf0) - next@entry) * fperiod samples and a fresh generator has next = 0; MlpgAdjust::create returns one row per mask entry, the mask being the per-state flags expanded by `durations` (IterExt::duration repeats each item `duration` times)")
     ctx.rule("C01-R2", "one shared duration vector: every MlpgAdjust::create call in Engine::generator receives the same `durations`; the 2-stream LPF placeholder has lf0.len() rows")
@@ -185,34 +216,7 @@ def run(ctx):
                         ctx.ok("C01-R1", "SpeechGenerator::new stores parameter `%s` in field `%s`" % (fld, fld), nb.loc())
                     else:
                         ctx.fail("C01-R1", nb.path, "field " + fld, "field %s is initialised with %s" % (fld, show(v) if v else None), nb.loc())
-    # one frame period for everybody: the generator sizes its buffer with the frame period it is
-    # given and the vocoder writes that many samples per frame with the one *it* is given - both
-    # (and the sampling rate of the vocoder) must be the condition's current values, not the
-    # voice's own metadata (which is only their default)
-    gen = cm.body_or_fail(ctx, p, "C01-R1", "engine::Engine::generator")
-    if gen is not None:
-        ebg = ExprBuilder(gen)
-        nfp = 0
-        for bb, t in gen.calls():
-            c = t["callee"]
-            if c["k"] != "fndef":
-                continue
-            tgt = p.bodies.get(c.get("resolved") or c["def"])
-            if tgt is None:
-                continue
-            for i, a in enumerate(t["args"]):
-                pn = tgt.local_name(i + 1)
-                want = {"fperiod": "fperiod", "sampling_frequency": "sampling_frequency", "rate": "sampling_frequency"}.get(pn)
-                if want is None:
-                    continue
-                nfp += 1
-                got = show(ebg.at(bb).op(a))
-                if got == "self.condition." + want:
-                    ctx.ok("C01-R1", "Engine::generator passes condition.%s to %s" % (want, cm.short(tgt.path)), cm.loc_of(t["span"]))
-                else:
-                    ctx.fail("C01-R1", gen.path, "%s of %s" % (pn, cm.short(tgt.path)),
-                             "%s receives `%s` as its %s instead of the condition's current value: an override of the frame period / sampling rate would reach only part of the pipeline (buffer sized with one period, frames written with another)" % (cm.short(tgt.path), got[:120], pn), cm.loc_of(t["span"]))
-        ctx.anchor("C01-R1", "fperiod / sampling_frequency arguments in Engine::generator", nfp, 3, gen.loc())
+    fperiod_wiring(ctx, p)
     cr = cm.body_or_fail(ctx, p, "C01-R1", MA + "create")
     if cr is not None:
         eb = ExprBuilder(cr)
